@@ -146,6 +146,10 @@ def gen_case(rng):
             t = ("call", rng.choice(["reverse", "length", "to_string"]), [t])
         return t, d
     if f == "contains":
+        if r < 0.12:
+            # a string subject searched for something that is not a string (a number, null, an array …): simply not contained
+            d["a0"], d["a1"] = rs(rng), rng.choice([rn(rng), None, True, [rs(rng)], {}, []])
+            return ("call", f, [A0, A1]), d
         if r < 0.5:
             d["a0"], d["a1"] = rs(rng), rs(rng)
             if rng.random() < 0.5 and d["a0"][1]:
